@@ -388,6 +388,9 @@ void Sim::exec_step(const Step& s, ns_t* next_override) {
             if (r.chance(0.3)) { mq::Prop u; u.id = mq::P_USER; u.s1 = "k"; u.s2 = std::to_string(i); pr.push_back(u); }
             if (r.chance(0.2)) { mq::Prop u; u.id = mq::P_CONTENT_TYPE; u.s1 = "ct"; pr.push_back(u); }
             broker.publish(0, "b/" + std::to_string(s.id * 1000 + i), pl, pr, false);
+            // a PINGRESP between two messages of the burst (the client asked for none; it carries no information and must not
+            // change what is recognised after it, whatever the chunking)
+            if (s.c && r.chance(0.25)) if (bk::BConn* c = broker.current()) { mq::Packet g; g.type = mq::PINGRESP; broker.emit(*c, g, 0); }
         }
         break;
     }
